@@ -652,3 +652,41 @@ Definition kf_C13_3 (o : op) : bool :=
   match o with V2DebtClose app asset ca dd da => negb ((dd =? asset) && (ca =? da)) | _ => false end.
 
 Definition kf_C13_any (o : op) : bool := kf_C13_1 o || kf_C13_2 o || kf_C13_3 o.
+
+(* ------------------------------------------------------------------------------------ *)
+(* Hypotheses of the property theorems (Properties/C13.v), executable.                   *)
+(* users are accounts >= 0 (so they differ from the module accounts); DecreaseNetFeeCollectedData
+   is never called with a negative amount (none of its call sites can); WasmMsgGetSurplusFund is
+   called with the coin of the asset it names (the contract supplies both) *)
+Definition valid_op (o : op) : bool :=
+  match o with
+  | LCreate u _ _ _ => 0 <=? u
+  | LDeposit u _ _ _ _ _ => 0 <=? u
+  | LWithdraw u _ _ _ _ _ => 0 <=? u
+  | LClose u _ _ _ _ => 0 <=? u
+  | SurplusFund app asset u denom amt => (0 <=? u) && (denom =? asset)
+  | DecNetFee _ _ amt => 0 <=? amt
+  | _ => true
+  end.
+
+(* the state every history starts from: nothing but funded users *)
+Definition genesis (assets apps : Z -> bool) (funds : list (Z * Z * Z)) : state :=
+  fold_left (fun s f => match f with (u, d, amt) => fund_user s u d amt end) funds (init_state assets apps).
+Definition valid_fund (f : Z * Z * Z) : bool := match f with (u, _, _) => 0 <=? u end.
+
+(* the (app, asset) whose net-fee record an op can change *)
+Definition op_key (s : state) (o : op) : option key :=
+  match o with
+  | LDeposit _ app asset _ _ _ | LWithdraw _ app asset _ _ _ | LClose _ app asset _ _ => Some (app, asset)
+  | LRewardCalc app lid _ => match find_locker (lockers s) lid with Some ld => Some (app, l_asset ld) | None => None end
+  | UpdLookup app asset _ _ _ _ _ _ => Some (app, asset)
+  | FeeIn app asset _ _ | GetAmount app asset _ | DecNetFee app asset _ | SurplusFund app asset _ _ _ => Some (app, asset)
+  | V1SurplusStart app asset | V1SurplusClose app asset _ _ _ | V1DebtStart app asset | V1DebtClose app asset _ _ _
+  | V1Penalty app asset _ | V2CheckStats app asset | V2SurplusClose app asset _ | V2DebtClose app asset _ _ _ => Some (app, asset)
+  | V2Penalty app ca _ _ => Some (app, ca)
+  | _ => None
+  end.
+
+(* ops whose book entry is deliberately not tied to a coin movement in the same op:
+   DecreaseNetFeeCollectedData alone (book only) *)
+Definition book_only (o : op) : bool := match o with DecNetFee _ _ _ => true | _ => false end.
